@@ -500,7 +500,7 @@ def to_evaluatable_python_function(expr: ExpressionT,
     else:
         unparse = ast.unparse
 
-    dep_mapper = CachedDependencyMapper(composite_leaves=True)
+    dep_mapper = CachedDependencyMapper(composite_leaves=False)
     deps = sorted({dep.name for dep in dep_mapper(expr)})
 
     ast_func = ast.FunctionDef(name=fn_name,
